@@ -174,6 +174,23 @@ func TestSIV(t *testing.T) {
 		c := drawSIV(rt, sivRoutes)
 		pt := gen.BytesOrNil(rt, "pt", 2048)
 		ad := gen.BytesOrNil(rt, "ad", 2048)
+		// Buffer layout: in a quarter of the cases plaintext and associated data are adjacent views of
+		// ONE record buffer (pt = rec[:n], ad = rec[n:]), as a caller encrypting a field of a record
+		// with the rest as context would pass them. The property is about values, not layouts.
+		if pt != nil && ad != nil && rapid.IntRange(0, 3).Draw(rt, "shared_record") == 0 {
+			wantPT, wantAD := bytes.Clone(pt), bytes.Clone(ad)
+			rec := append(append(make([]byte, 0, len(pt)+len(ad)+16), pt...), ad...)
+			pt, ad = rec[:len(pt)], rec[len(pt):]
+			first := c.encryptChecked(rt, pt, ad)
+			if !bytes.Equal(pt, wantPT) || !bytes.Equal(ad, wantAD) {
+				rt.Fatalf("%v: EncryptDeterministically changed its inputs (plaintext and associated data are adjacent views of one buffer): pt %x -> %x, ad %x -> %x", c, wantPT, pt, wantAD, ad)
+			}
+			again, err := c.p.EncryptDeterministically(pt, ad)
+			if err != nil || !bytes.Equal(again, first) {
+				rt.Fatalf("%v: pt=%x ad=%x (adjacent views of one buffer): two encryptions of equal inputs differ: %x vs %x (%v)", c, wantPT, wantAD, first, again, err)
+			}
+			evid.Add("shared_record_cases", 1)
+		}
 		ct := c.encryptChecked(rt, pt, ad)
 		c.decryptMust(rt, "own", ct, ad, pt)
 		// nil and empty are the same string
